@@ -5,6 +5,7 @@ use crate::backend::{Bk, Kind, PwParams};
 use crate::faults::BlobFault;
 use crate::genp::{Builder, FamilyKeys};
 use crate::plan::{Bytes, Plan, SecretRef, Step, WrapKind};
+use crate::rngsvc::RngSpec;
 use crate::runner::{Scenario, Tier};
 
 pub struct C05;
@@ -90,6 +91,10 @@ impl Scenario for C05 {
             Tier::Quick => vec![],
             Tier::Thorough => vec!["probe:rsa-kem-ciphertext-leading-zero"],
         }
+    }
+    fn adopts(&self, v: &crate::world::Violation) -> bool {
+        // a key that cannot be imported again (from its own DER / text) cannot be unwrapped to either
+        matches!((v.property, v.class.as_str()), ("C08", "honest-key-rejected"))
     }
     fn plan(&self, seed: u64, run: u64, tier: Tier) -> Plan {
         if run < 6 {
@@ -263,7 +268,29 @@ fn enumerate6(seed: u64, run: u64, tier: Tier, slices: u64) -> Plan {
         WrapKind::Pke => (SecretRef::Key { slot: fk.pke_public }, SecretRef::Key { slot: fk.pke_secret }),
     };
     let params = if f == 1 || f == 3 { PwParams::Iter(2) } else { PwParams::Argon(8192, 1, 1) };
-    let rng = b.healthy_rng();
+    let mut rng = b.healthy_rng();
+    // k1.seal: the RSA-KEM ciphertext is a 512-byte integer; script the random r so that c = r^e mod n
+    // starts with a zero byte (1 in 256 otherwise): the encodings of c with and without that byte alias
+    let mut c_leading_zero = false;
+    if f == 1 && wk == WrapKind::Pke {
+        let pke_idx = b.plan.steps.iter().find_map(|s| match s { Step::KeyPool { slot, idx, kind: Kind::PkePublic, .. } if *slot == fk.pke_public => Some(*idx), _ => None });
+        if let Some(n) = pke_idx.and_then(crate::fixtures::rsa4096_modulus) {
+            use num_bigint_dig::BigUint;
+            let nv = BigUint::from_bytes_be(&n);
+            let e = BigUint::from(65537u32);
+            let mut g = crate::prng::Rng::new(b.ev_seed());
+            for _ in 0..3000 {
+                let mut r = g.bytes(512);
+                r[0] = (r[0] & 0x7f) | 0x40;
+                let c = BigUint::from_bytes_be(&r).modpow(&e, &nv);
+                if c.bits() <= 4088 {
+                    rng = RngSpec::Script { draws: vec![hex::encode(&r)], seed: b.ev_seed() };
+                    c_leading_zero = true;
+                    break;
+                }
+            }
+        }
+    }
     b.push(Step::Wrap { blob, node: 0, wk, key, with: with_w, params: params.clone(), rng });
     let readers: Vec<usize> = if bk.sibling().is_some() { vec![0, 1] } else { vec![0] };
     let total = blob_len(f, wk, key_len(f, kk));
@@ -287,6 +314,21 @@ fn enumerate6(seed: u64, run: u64, tier: Tier, slices: u64) -> Plan {
             continue;
         }
         read(&mut b, vec![BlobFault::Flip { byte: *byte, bit: *bit }], &with_u);
+    }
+    // one byte removed anywhere inside the blob (the fields behind it shift)
+    if slow {
+        for at in [47usize, 48, 79, 80, 81, 82, 300, 590, 591] {
+            read(&mut b, vec![BlobFault::TruncMid { at, n: 1 }], &with_u);
+        }
+        if c_leading_zero {
+            // ... in particular the leading zero byte of c, and an extra zero in front of it
+            read(&mut b, vec![BlobFault::TruncMid { at: 80, n: 1 }], &with_u);
+            read(&mut b, vec![BlobFault::ExtendMid { at: 80, hex: "00".into() }], &with_u);
+        }
+    } else {
+        for at in 0..total {
+            read(&mut b, vec![BlobFault::TruncMid { at, n: 1 }], &with_u);
+        }
     }
     // corruptions of the tag that cancel under a folded comparison: the same mask in two bytes whose
     // distance is a word size, and whole words exchanged (the tag is the first field of every blob)
